@@ -54,13 +54,25 @@ pub fn gen_kind(tier: Tier, rng: &mut Rng, c03: bool) -> Vec<Sx> {
         let store = Sx::l((0..4).map(|_| Sx::i(rng.below(6) as i64)).collect());
         let maxc = if c03 { rng.below(65) } else { *rng.pick(&[1u64, 2, 3, 10]) };
         let mut hops = vec![];
+        let mut fresh = nr as i64;      // names of rules added later in the history stay distinct
+        // C03: a quarter of the cases edit the rule base between two executes (remove a rule - possibly one whose no-loop firing is
+        // recorded - and add a new one): every execute must still make its passes and stop at a fixpoint or at the bound
+        if c03 && rng.chance(1, 4) {
+            hops.push(Sx::l(vec![Sx::n(0), Sx::i(5), Sx::n(maxc)]));
+            for _ in 0..rng.range(1, 3) {
+                if rng.chance(1, 2) { hops.push(Sx::l(vec![Sx::n(7), Sx::i(rng.below(nr) as i64)])); }
+                else { hops.push(Sx::l(vec![Sx::n(8), enc_rule(&gen_rule(rng, fresh, attrs, c03))])); fresh += 1; }
+            }
+        }
         let nh = if c03 { 1 } else { rng.range(1, 8) };
         for _ in 0..nh {
-            hops.push(if c03 { Sx::l(vec![Sx::n(0), Sx::i(5), Sx::n(maxc)]) } else { match rng.below(13) {
+            hops.push(if c03 { Sx::l(vec![Sx::n(0), Sx::i(5), Sx::n(maxc)]) } else { match rng.below(15) {
                 0..=5 => Sx::l(vec![Sx::n(0), Sx::i(rng.below(10) as i64), Sx::n(maxc)]),
                 6..=7 => Sx::l(vec![Sx::n(1), Sx::i(rng.below(3) as i64)]),
                 8 => Sx::l(vec![Sx::n(2)]), 9 => Sx::l(vec![Sx::n(3)]), 10 => Sx::l(vec![Sx::n(4)]),
                 12 => Sx::l(vec![Sx::n(6), Sx::i(rng.below(3) as i64)]),
+                13 => Sx::l(vec![Sx::n(7), Sx::i(rng.below(nr) as i64)]),
+                14 => { fresh += 1; Sx::l(vec![Sx::n(8), enc_rule(&gen_rule(rng, fresh - 1, attrs, c03))]) }
                 _ => Sx::l(vec![Sx::n(5), Sx::i(rng.below(nr) as i64), Sx::b(rng.chance(1, 2))]),
             } });
         }
@@ -125,6 +137,8 @@ pub fn run(case: &Sx) -> (Sx, String) {
             3 => { eng.clear_agenda_focus(); obs.push(Sx::l(vec![active(&eng)])); }
             4 => { eng.reset_no_loop_tracking(); obs.push(Sx::l(vec![active(&eng)])); }
             6 => { eng.activate_agenda_group(gname(h.at(1).as_i())); obs.push(Sx::l(vec![active(&eng)])); }
+            7 => { let _ = eng.knowledge_base().remove_rule(&format!("r{}", h.at(1).as_i())); obs.push(Sx::l(vec![active(&eng)])); }
+            8 => { let _ = eng.knowledge_base().add_rule(mk_rule(h.at(1))); obs.push(Sx::l(vec![active(&eng)])); }
             _ => { let _ = eng.knowledge_base().set_rule_enabled(&format!("r{}", h.at(1).as_i()), h.at(2).as_b()); obs.push(Sx::l(vec![active(&eng)])); }
         }
     }
